@@ -226,9 +226,8 @@ def dqStep (st : DqState) (op : DqOp) : DqState :=
           else if l.isEmpty then st.tag "rm-head" else if r.isEmpty then st.tag "rm-tail" else st.tag "rm-mid"
         (st.emit "-").setCur { x with d := d', ref := l ++ r }
   | .reset =>
-    match x.d.reset with
-    | none => dqPanic st
-    | some d' => ((st.emit "-").tag "reset").setCur { x with d := d', ref := [] }
+    let st := if x.d.elements.isEmpty then st.tag "reset-unallocated" else st.tag "reset"
+    (st.emit "-").setCur { x with d := x.d.reset, ref := [] }
   | .clone =>
     let st := (st.emit s!"+{st.insts.size}").tag "clone"
     { st with insts := st.insts.push { x with d := x.d.clone } }
